@@ -85,6 +85,27 @@ CHECKS["C03"] = dict(level=MC, design="DESIGN.md section 6, C03", note=_SRH_NOTE
          "sites of the calls that target it or to one proxy, no edge endpoint outside the module, no control transfer "
          "inside a block, zero-sized blocks only with the documented fallthrough-to-proxy edge.")
 
+CHECKS["C05"] = dict(level=MC, design="DESIGN.md section 6, C05", note=_SRH_NOTE + " Serialisation is witness-level: the protobuf "
+    "round trip (FFI) runs on the concrete replays of z3 witnesses (>= 1 per shape), not symbolically.",
+    technique=_SRH_TECH + "; fault enumeration over the k-th patch callback",
+    text="Same exploration as C01 (plus CFI layouts) and, for every scenario with patches, a variant in which the k-th "
+         "patch callback raises (every k). z3 decides on every path: blocks inside their intervals and pairwise disjoint, "
+         "every CFG endpoint, symbol referent, expression symbol and every node mentioned in any aux table (generic walk) "
+         "is part of the module, zero-sized blocks only in the documented cases, addresses present; after a failing patch "
+         "ir.cfg is the caller's CFG object with exactly the edges that were live at the failure and no symbol is stranded. "
+         "The concrete replays additionally save/load the IR through protobuf and compare with deep_eq.")
+CHECKS["C08"] = dict(level=MC, design="DESIGN.md section 6, C08", note=_SRH_NOTE + " CFI layouts: one procedure over three "
+    "blocks (personality/LSDA, remember/restore, directives at block start, instruction boundaries and block end), two "
+    "adjacent procedures, procedures separated by or split across a data block; patches with and without own directives.",
+    technique=_SRH_TECH,
+    text="Same exploration as C01 on CFI layouts: the cfiDirectives table after the rewrite, projected to listing "
+         "positions, must match the directive sequence of the edited listing model (structural directives in place and in "
+         "order, non-structural ones optional only next to deleted instructions, a procedure without remaining code "
+         "droppable as a unit, patch directives present exactly when the insertion point is inside a procedure - including "
+         "its very end), evaluate with procedures opened/closed exactly once, and every instruction is inside a procedure "
+         "iff the listing says so. With unchanged sequence and positions the unwind state at every original instruction "
+         "is unchanged.")
+
 NOT_YET = "check not built yet in this round (planned, see DESIGN.md section 6)"
 
 manifest = {
